@@ -62,6 +62,22 @@ def run(ck):
     ck.ob("C11-O1", sitestr(pm, runs[0]), not bad_t, "synchronous mode: every message type reaches the pipeline run on every path through processMessage (no early return, no give-up on a lock)" if not bad_t else
           "processMessage can return without running the pipeline for %s: the message never reaches the sinks" % ", ".join(bad_t), key="Logger::processMessage|run-skipped")
 
+    # the fatal message has to enter the logger at all: Qt's entry point hands every message to processMessage() whenever a logger is
+    # installed — no diversion to another handler keyed on the application's state, the calling thread, ...
+    mh0 = F.fn(LG + "::messageHandler", optional=True)
+    if mh0 is not None:
+        ck.touch(mh0)
+        gm0 = Graph(mh0)
+        al = [v["decl"] for n_ in mh0.find(lambda n_: n_.get("k") == "decl") for v in n_.get("vars", []) if isinstance(v.get("init"), dict) and any((x.get("name") or "").endswith("g_activeLogger") for x in walk(v["init"]))]
+        isl0 = lambda n_: n_.get("k") == "ref" and n_.get("decl") in al
+        pmc = [n_ for n_ in mh0.calls() if n_.get("fn") == pm.id]
+        if pmc and al:
+            okm = gm0.must_pass(set(gm0.sites_of_nodes(pmc)), keep=gm0.projector(atom_eq(isl0, True)))
+            ck.ob("C11-O1", sitestr(mh0, pmc[0]), okm, "with a logger installed, messageHandler hands every message to processMessage()" if okm else
+                  "messageHandler can return without calling processMessage() although a logger is installed: a fatal message taking that path is never written to the file sinks and nothing is flushed before abort()",
+                  key="Logger::messageHandler|bypass")
+        else:
+            ck.ob("C11-O1", sitestr(mh0), None, "messageHandler: the load of the active logger / the call of processMessage was not recognised", key="Logger::messageHandler|bypass")
     handled_in_entry = False
     if not flushes:
         # the flush may sit in the Qt-facing entry instead, right after the locked run (whether it is still under the lock is C02's business)
@@ -204,6 +220,9 @@ def run(ck):
     okm = len(rs) == 1 and is_this_field(rs[0].get("e"), IO + "::m_device")
     ck.ob("C11-O3", sitestr(dv), okm, "device() returns m_device", key="IODeviceSink::device")
     sinks_driven_through_the_list(ck)
+    # the rotating sink keeps a device to flush: a rotation that fails must not leave the file closed
+    from rules.rfs import Sink, reopened_after_close
+    reopened_after_close(ck, Sink(ck), "C11-O3", "every later record, the fatal one included, is written to a closed device and the flush has nothing to flush")
 
 
 def sinks_driven_through_the_list(ck):
